@@ -357,11 +357,16 @@ func c20Count(nodes []*c20Node) int {
 // name may hold) next to a user file: it is removed iff it really carries the
 // generated-code suffix.
 func Harness_C20_Names() {
-	name := verif.String(6)
+	// names around the generated-code suffix ".gr.go": the two separator
+	// positions are arbitrary bytes, optionally behind a one-byte stem
+	sep := verif.String(2)
+	name := string(sep[0]) + "gr" + string(sep[1]) + "go"
+	if verif.Bool() {
+		name = "m" + name
+	}
 	for i := 0; i < len(name); i++ {
 		verif.Assume(name[i] != '/' && name[i] != 0)
 	}
-	verif.Assume(name != "keep.x")
 	nodes := []*c20Node{{name: name}, {name: "keep.x"}}
 	root := &c20Node{name: "t", dir: true, children: nodes}
 	c20Cwd = &c20Node{name: "", dir: true, children: []*c20Node{root}}
